@@ -108,7 +108,7 @@ def _log_of(C, ratio_term):
     """the code's own log application for this argument (falls back to a new one)"""
     n = core._norm(ratio_term)
     for ar, res, _m in C.uf.get("log", []):
-        if ar[0].eq(n):
+        if _m.get("norm", ar)[0].eq(n):
             return res
     return None
 
